@@ -5,7 +5,7 @@ CLAUSES = ["I_Grid", "I_Window", "I_Clone", "I_Dims", "I_String", "I_Panic"]
 
 
 def execute(run, plans):
-    return split_segments(run_driver(run, "array2d", [c for p in plans for c in p]))
+    return run_plans(run, "array2d", plans)
 
 
 def clean(op):
@@ -90,6 +90,7 @@ def check(run):
     segs = execute(run, plans)
     if len(segs) != len(plans):
         raise Inconclusive("driver returned %d segments for %d plans" % (len(segs), len(plans)))
+    plans, segs = drop_crashed(plans, segs)
     conf = conformance(plans, segs, ["x"])
     validate(run, "array2d", "GridAbsTrace", {}, segs, CLAUSES, plans=plans)
     run.cov.update(tour=st, conformance=conf, exhaustive=st["edges_covered"] == st["edges_total"],
@@ -105,6 +106,6 @@ def check(run):
 
 
 def replay(run, rp):
-    segs = execute(run, [rp["plan"]])
+    segs = [sg for sg in execute(run, [rp["plan"]]) if sg is not None]
     validate(run, "array2d", "GridAbsTrace", {}, segs, CLAUSES, plans=[rp["plan"]])
     return finish(run, reexec=lambda rej: execute(run, [rej["plan"]])[0])
